@@ -1,0 +1,31 @@
+//go:build verif
+
+package cache
+
+import "github.com/thought-machine/please/src/core"
+
+// VerifOpHook, when set, is called by verifOp before each filesystem operation of the directory
+// cache's Store / Retrieve paths (verification builds only). It may record the operation, block, or
+// kill the process to simulate a crash at that point.
+var VerifOpHook func(op, path string)
+
+func verifOp(op, path string) {
+	if VerifOpHook != nil {
+		VerifOpHook(op, path)
+	}
+}
+
+// NewDirCacheForVerif constructs a directory cache on dir through the real constructor, without the
+// background cleaner.
+func NewDirCacheForVerif(dir string, compress bool) *dirCache {
+	config := core.DefaultConfiguration()
+	config.Cache.Dir = dir
+	config.Cache.DirClean = false
+	config.Cache.DirCompress = compress
+	return newDirCache(config)
+}
+
+// PathsForVerif returns the entry path and the temporary path Store uses for the given key.
+func (cache *dirCache) PathsForVerif(target *core.BuildTarget, key []byte) (final, tmp string) {
+	return cache.getPath(target, key, ""), cache.getFullPath(target, key, "", "=")
+}
